@@ -117,13 +117,13 @@ Lemma ex_not_unique :
 Proof. reflexivity. Qed.
 
 (* the literal keys of the source (regenerated from /repo on every run) are the
-   keys of the model; the data_id test is [self._data_id != hash(self._data)] *)
+   keys of the model; the data_id test is the guarded [self._data_id == hash(self._data)] *)
 Definition k_node_id : text := [110; 111; 100; 101; 95; 105; 100].
 Lemma source_keys_ok :
   TO_DICT_KEYS = [k_data; k_data_id; k_children] /\
   FROM_DICT_KEYS = [k_data; k_data_id; k_node_id; k_children] /\
-  TO_DICT_ID_TEST_IS_NE_HASH = true /\
-  TO_DICT_SKELETON = [0; 1; 2; 3; 4].
+  TO_DICT_ID_TEST = 2 /\
+  TO_DICT_SKELETON = [0; 5; 1; 2; 3; 4].
 Proof. repeat split; vm_compute; reflexivity. Qed.
 
 (* a mapper that returns a new dict without "data_id" loses explicit ids *)
@@ -133,29 +133,30 @@ Lemma ex_drop_loses_ids :
 Proof. reflexivity. Qed.
 
 (* canonical dict lists: the four shapes of a canonical item *)
-Lemma canon_leaf dd s i : dd (Some (JStr s)) = inl i -> i_name i = s -> canon dd (JDict [(k_data, JStr s)]).
-Proof. intros H1 H2. apply (canon_item dd s i [] [] H1 H2); now left. Qed.
+Lemma canon_leaf dd s i : dd (Some (JStr s)) = inl i -> i_name i = s -> i_hash i <> (-1) ->
+  canon dd (JDict [(k_data, JStr s)]).
+Proof. intros H1 H2 Hh. apply (canon_item dd s i [] [] H1 H2 Hh); now left. Qed.
 
-Lemma canon_id dd s i dv : dd (Some (JStr s)) = inl i -> i_name i = s -> dv <> DInt (i_hash i) ->
+Lemma canon_id dd s i dv : dd (Some (JStr s)) = inl i -> i_name i = s -> i_hash i <> (-1) -> dv <> DInt (i_hash i) ->
   canon dd (JDict [(k_data, JStr s); (k_data_id, jv_of_did dv)]).
 Proof.
-  intros H1 H2 H3. apply (canon_item dd s i [(k_data_id, jv_of_did dv)] [] H1 H2); [right|now left].
+  intros H1 H2 Hh H3. apply (canon_item dd s i [(k_data_id, jv_of_did dv)] [] H1 H2 Hh); [right|now left].
   exists dv. split; [reflexivity|exact H3].
 Qed.
 
-Lemma canon_kids dd s i c cs : dd (Some (JStr s)) = inl i -> i_name i = s -> Forall (canon dd) (c :: cs) ->
+Lemma canon_kids dd s i c cs : dd (Some (JStr s)) = inl i -> i_name i = s -> i_hash i <> (-1) -> Forall (canon dd) (c :: cs) ->
   canon dd (JDict [(k_data, JStr s); (k_children, JList (c :: cs))]).
 Proof.
-  intros H1 H2 H3. apply (canon_item dd s i [] [(k_children, JList (c :: cs))] H1 H2); [now left|right].
+  intros H1 H2 Hh H3. apply (canon_item dd s i [] [(k_children, JList (c :: cs))] H1 H2 Hh); [now left|right].
   exists c, cs. split; [reflexivity|exact H3].
 Qed.
 
-Lemma canon_full dd s i dv c cs : dd (Some (JStr s)) = inl i -> i_name i = s -> dv <> DInt (i_hash i) ->
+Lemma canon_full dd s i dv c cs : dd (Some (JStr s)) = inl i -> i_name i = s -> i_hash i <> (-1) -> dv <> DInt (i_hash i) ->
   Forall (canon dd) (c :: cs) ->
   canon dd (JDict [(k_data, JStr s); (k_data_id, jv_of_did dv); (k_children, JList (c :: cs))]).
 Proof.
-  intros H1 H2 H3 H4.
-  apply (canon_item dd s i [(k_data_id, jv_of_did dv)] [(k_children, JList (c :: cs))] H1 H2); right.
+  intros H1 H2 Hh H3 H4.
+  apply (canon_item dd s i [(k_data_id, jv_of_did dv)] [(k_children, JList (c :: cs))] H1 H2 Hh); right.
   - exists dv. split; [reflexivity|exact H3].
   - exists c, cs. split; [reflexivity|exact H4].
 Qed.
@@ -164,11 +165,11 @@ Qed.
 Lemma ex_canon : Forall (canon (dd_raw ex_raw)) (to_dict_list sm_none ex_f).
 Proof.
   rewrite ex_dump. apply Forall_cons; [|apply Forall_cons; [|apply Forall_nil]].
-  - apply (canon_full _ [97] (I (-1) 1 11 true [97] (DInt 0) None []) (DInt 0)); [reflexivity|reflexivity|discriminate|].
+  - apply (canon_full _ [97] (I (-1) 1 11 true [97] (DInt 0) None []) (DInt 0)); [reflexivity|reflexivity|discriminate|discriminate|].
     apply Forall_cons; [|apply Forall_cons; [|apply Forall_nil]].
-    + apply (canon_id _ [98] (I (-1) 2 22 true [98] (DInt 0) None []) (DStr [])); [reflexivity|reflexivity|discriminate].
-    + apply (canon_leaf _ [97] (I (-1) 1 11 true [97] (DInt 0) None [])); reflexivity.
-  - apply (canon_kids _ [98] (I (-1) 2 22 true [98] (DInt 0) None [])); [reflexivity|reflexivity|].
+    + apply (canon_id _ [98] (I (-1) 2 22 true [98] (DInt 0) None []) (DStr [])); [reflexivity|reflexivity|discriminate|discriminate].
+    + apply (canon_leaf _ [97] (I (-1) 1 11 true [97] (DInt 0) None [])); [reflexivity|reflexivity|discriminate].
+  - apply (canon_kids _ [98] (I (-1) 2 22 true [98] (DInt 0) None [])); [reflexivity|reflexivity|discriminate|].
     apply Forall_cons; [|apply Forall_nil].
-    apply (canon_id _ [97] (I (-1) 1 11 true [97] (DInt 0) None []) (DInt 0)); [reflexivity|reflexivity|discriminate].
+    apply (canon_id _ [97] (I (-1) 1 11 true [97] (DInt 0) None []) (DInt 0)); [reflexivity|reflexivity|discriminate|discriminate].
 Qed.
